@@ -40,6 +40,12 @@ python3 - "$seed/meta.json" "$d/meta.json" "$suite" "$with" "$without" "$qrc" "$
 import json,sys
 src,dst,suite,w,wo,q,t,fp,prop=sys.argv[1:]
 m=json.load(open(src))
+try:
+    old=json.load(open(dst))
+    if "strengthening" in old:
+        m["strengthening"]=old["strengthening"]   # notes survive a re-confirmation
+except Exception:
+    pass
 m["confirmed_by_lead"]={"suite_with_change":suite,"demo_exit_with_change":int(w),"demo_exit_without_change":int(wo),
   "check_quick_exit":int(q),"check_thorough_exit":(None if t=="-" else int(t)),"check_fingerprint":fp,
   "ran":[f"cargo +1.97 test --workspace --offline --no-fail-fast (change applied, demo absent)", m.get("demo_command",""), f"VERIF_REPO=<worktree> ./check {prop} --tier quick|thorough"]}
